@@ -16,6 +16,13 @@
 
 #include <unifex/detail/atomic_intrusive_list.hpp>
 
+#ifdef UNIFEX_VERIF
+// Verification hook (compiled out unless UNIFEX_VERIF is defined): lets a
+// symbolic engine model "spin until one of the two locations last read
+// changes" as a blocking operation instead of unrolling the spin loop.
+extern "C" void vf_spin_wait2() noexcept;
+#endif
+
 namespace unifex {
 
 using node = atomic_intrusive_list_node;
@@ -39,6 +46,9 @@ uintptr_t atomic_intrusive_list_link_ops::lock(link& lk) noexcept {
   uintptr_t val = lk.load(std::memory_order_relaxed);
   while (true) {
     while (val & lock_bit) {
+#ifdef UNIFEX_VERIF
+      vf_spin_wait2();
+#endif
       val = lk.load(std::memory_order_relaxed);
     }
     if (lk.compare_exchange_weak(
@@ -66,6 +76,9 @@ bool atomic_intrusive_list_link_ops::try_lock_checking(
   uintptr_t val = lk.load(std::memory_order_relaxed);
   while (true) {
     if (val & lock_bit) {
+#ifdef UNIFEX_VERIF
+      vf_spin_wait2();
+#endif
       link* cur = monitored.load(std::memory_order_acquire);
       if (cur != expected) {
         return false;
